@@ -62,7 +62,7 @@ theorem no_stale_pointer_use (lists : List (List Nat)) (progs : List (List Op)) 
     (∀ e ∈ s'.trace, ∀ x ∈ e.2, x ≠ Ev.outside ∧ x ≠ Ev.stale) ∧
     (∀ t, Res.uaf ∉ (s'.threads t).results) := by
   have f := run_facts facts_guarded sched _ _ (inv_init lists progs) hrun
-  obtain ⟨ds, hds, hne, _, hres, _⟩ := f.hist
+  obtain ⟨ds, hds, hne, _, hres, _, _⟩ := f.hist
   obtain ⟨tr, htr, htrg⟩ := f.trace
   have hh : s'.hist = ds := by simpa [init] using hds
   have ht : s'.trace = tr := by simpa [init] using htr
@@ -78,22 +78,27 @@ theorem no_stale_pointer_use (lists : List (List Nat)) (progs : List (List Op)) 
     (all operations) and every schedule: the completed operations, *in the order
     in which they completed*, are a sequential execution of the shared-vector
     specification from the initial lists — same results, same final contents —
-    and every thread's results are exactly its own operations' results in that
-    order. (Completion order respects real-time order: see
-    `completion_order_respects_real_time`.) -/
+    every thread's results are exactly its own operations' results in that
+    order, and the log restricted to a thread is exactly the part of its
+    program it has executed, in program order. (Completion order respects
+    real-time order: see `completion_order_respects_real_time`.) -/
 theorem atomic_ops_linearizable (lists : List (List Nat)) (progs : List (List Op))
     (sched : List Nat) (s' : State)
     (hrun : run RotoV.Gen.C16.facts (init lists progs) sched = some s') :
     specRun (abs (init lists progs)) (s'.hist.map (·.op)) = (s'.hist.map (·.res), abs s') ∧
-    (∀ t, (s'.threads t).results = (s'.hist.filter (·.tid = t)).map (·.res)) := by
+    (∀ t, (s'.threads t).results = (s'.hist.filter (·.tid = t)).map (·.res)) ∧
+    (∀ t, (s'.hist.filter (·.tid = t)).map (·.op) ++ (s'.threads t).prog = progs.getD t []) := by
   have f := run_facts facts_guarded sched _ _ (inv_init lists progs) hrun
-  obtain ⟨ds, hds, _, _, hres, hsim⟩ := f.hist
+  obtain ⟨ds, hds, _, _, hres, hord, hsim⟩ := f.hist
   have hh : s'.hist = ds := by simpa [init] using hds
   rw [hh]
-  refine ⟨hsim, ?_⟩
-  intro t
-  have := hres t
-  simpa [init] using this
+  refine ⟨hsim, ?_, ?_⟩
+  · intro t
+    have := hres t
+    simpa [init] using this
+  · intro t
+    have := hord t
+    simpa [init] using this
 
 /-- The linearization order used by T1 respects real-time order: whatever
     completed during a prefix of the schedule comes, in the log, before
